@@ -135,6 +135,9 @@ static void m_remove(struct seq* s, int pos) {
 static int64_t rand_value(vh_rng* r) { return vh_chance(r, 90) ? vh_range(r, -3, 12) : vh_range(r, -100000, 100000); }
 
 static bool cmp_gt(var a, var b) { return gt(a, b); }
+/* comparison functions that hold for equal elements too: the pivot compares true with itself */
+static bool cmp_le(var a, var b) { return le(a, b); }
+static bool cmp_ge(var a, var b) { return ge(a, b); }
 
 static size_t arr_slots(struct seq* s) { return s->kind == KIND_ARRAY ? ((struct Array*)s->c)->nslots : 0; }
 
@@ -284,12 +287,15 @@ static void one_op(vh_rng* r, struct seq* s, int maxlen, char* opd, size_t opcap
     else if (s->kind == KIND_LIST) { while (s->n < n) { s->m[s->n++] = 0; } vh_count("resize_list_grow"); }
     else { vh_count("resize_reserve"); }
   } else if (roll < 95 && s->kind != KIND_LIST) {
-    int desc = vh_chance(r, 40);
+    int how = (int)vh_below(r, 5);            /* sort(), sort_by(gt), sort_by(le), sort_by(ge), sort() */
+    int desc = how == 1 || how == 3;
     static int64_t before[MAXLEN];
     memcpy(before, s->m, sizeof(int64_t) * (size_t)s->n);
-    snprintf(opd, opcap, desc ? "sort_by(gt)" : "sort()");
+    snprintf(opd, opcap, "%s", how == 1 ? "sort_by(gt)" : how == 2 ? "sort_by(le)" : how == 3 ? "sort_by(ge)" : "sort()");
     vh_op("%s", opd);
-    if (desc) { VH_CATCH(sort_by(s->c, cmp_gt), exc); } else { VH_CATCH(sort(s->c), exc); }
+    if (how == 1) { VH_CATCH(sort_by(s->c, cmp_gt), exc); } else if (how == 2) { VH_CATCH(sort_by(s->c, cmp_le), exc); }
+    else if (how == 3) { VH_CATCH(sort_by(s->c, cmp_ge), exc); } else { VH_CATCH(sort(s->c), exc); }
+    if (how == 2 || how == 3) { vh_count("sorts_by_a_reflexive_comparison"); }
     if (exc) { vh_violation(KEY("sort-raised"), "%s raised %s", opd, vh_exc_name(exc)); return; }
     /* reference: insertion sort of the model */
     int ties = 0;
@@ -416,6 +422,15 @@ static void sort_cases(vh_rng* r) {
         VH_CATCH(sort_by(s.c, cmp_gt), exc);
         for (int i = 0; i < s.n / 2; i++) { int64_t t = s.m[i]; s.m[i] = s.m[s.n - 1 - i]; s.m[s.n - 1 - i] = t; }
         check_seq(&s, "sort_by(gt)", "sort");
+        if (n > 400) { vh_count("sort_shapes"); del(s.c); continue; }          /* (quadratic for all-equal input) */
+        VH_CATCH(sort_by(s.c, cmp_le), exc);
+        if (exc) { vh_violation("C04:sort:raised", "sort_by(le) raised %s", vh_exc_name(exc)); }
+        for (int i = 0; i < s.n / 2; i++) { int64_t t = s.m[i]; s.m[i] = s.m[s.n - 1 - i]; s.m[s.n - 1 - i] = t; }
+        check_seq(&s, "sort_by(le)", "sort");
+        VH_CATCH(sort_by(s.c, cmp_ge), exc);
+        if (exc) { vh_violation("C04:sort:raised", "sort_by(ge) raised %s", vh_exc_name(exc)); }
+        for (int i = 0; i < s.n / 2; i++) { int64_t t = s.m[i]; s.m[i] = s.m[s.n - 1 - i]; s.m[s.n - 1 - i] = t; }
+        check_seq(&s, "sort_by(ge)", "sort");
         vh_count("sort_shapes");
         if (shape >= 2 && shape <= 3) { vh_count("sorts_with_ties"); }
         del(s.c);
